@@ -158,8 +158,15 @@ def _title_exchange(net, Server, sopclass, F, title, k):
             try:
                 peer = tcpnet.RefPeer.connect(server.port, timeout=10.0)
                 try:
-                    peer.send_pdu(F.assoc_rq_tree(called=title if k % 2 else b'ANY-SCP',
-                                                  calling=title if k % 2 == 0 else b'ASCII-SCU'))
+                    if (k // len(TITLES)) % 2:
+                        # ASCII titles, but an optional user-information item longer than its nominal
+                        # maximum (implementation version name of 17..64 characters): the accepting
+                        # entity repeats the items it was sent
+                        peer.send_pdu(F.assoc_rq_tree(called=b'ANY-SCP', calling=b'ASCII-SCU', extra_subs=[
+                            {'type': 0x55, 'rsv': 0, 'name': b'V' * (17, 33, 64, 200)[k % 4]}]))
+                    else:
+                        peer.send_pdu(F.assoc_rq_tree(called=title if k % 2 else b'ANY-SCP',
+                                                      calling=title if k % 2 == 0 else b'ASCII-SCU'))
                     try:
                         reply = peer.recv_pdu()['type']
                         if reply == 2:
